@@ -2,6 +2,7 @@ From Coq Require Import ZArith NArith List Bool.
 From RecordUpdate Require Import RecordSet.
 From PSO Require Import Raft.Types Raft.Node Raft.Net Raft.Obs Raft.ProofsApplyBase Raft.ProofsApply
   Raft.ProofsCallbacks Raft.ProofsCallbacks2.
+From PSO Require Import Raft.ProofsElectionGhost Raft.RefineMain Raft.ProofsCallbacksCore.
 Import ListNotations.
 Import RecordSetNotations.
 Open Scope N_scope.
@@ -133,3 +134,30 @@ Theorem C02_success_local :
   run_trace c ginit evs = Some g -> gstep c g ev = Some (g', o) -> step_outcomes_ok c g ev o.
 Proof. exact success_local. Qed.
 Print Assumptions C02_success_local.
+
+(* link to the refinement (Tier C), core fragment: a SUCCESS outcome - at the leader or, for a
+   forwarded command, at the submitting follower - is fired by a tick for an entry that sits at an
+   index <= the firing voter's commit index, under a subscription recorded with that entry's own term;
+   and that (index, entry) pair is what every voter holds at that index, whenever its commit index
+   has reached it, at every later state of the run (also after the firing voter was killed).
+   The link from the id to the submitted command is C02_success_is_committed_core_full (Definition) *)
+Theorem C02_success_is_committed_core_partial :
+  forall (c : conf) (V : list nid) (evs1 : list event) (ev : event) (evs2 : list event)
+         (g1 g2 g3 : gstate) (x : nid) (s : S) (id r : N),
+  dyn c = false -> file_dump c = false -> 1 < batch c ->
+  valid V (evs1 ++ ev :: evs2) = true -> run_ok c ginit (evs1 ++ ev :: evs2) = true ->
+  run_trace c ginit evs1 = Some g1 -> gstep c g1 ev = Some (g2, Some (x, s)) -> x < RO_BASE ->
+  In (id, r, SUCCESS) (fired (outs s)) ->
+  run_trace c g2 evs2 = Some g3 ->
+  exists en x0 now rnd bud ord sl,
+    ev = ETick x now rnd bud ord sl /\ aget x (nodes g1) = Some x0 /\
+    aget x (nodes g2) = Some (nd s) /\
+    1 <= eidx en /\ eidx en <= commit (nd s) /\
+    nth_error (log (nd s)) (N.to_nat (eidx en) - 1) = Some en /\
+    In (eterm en, id)
+       (local_subs (subs_of (eidx en)
+          (wait_commit (nd (tick_pre (mk_env c now rnd bud ord sl) (start_S (mk_env c now rnd bud ord sl) x0)))))) /\
+    forall b xb, aget b (nodes g3) = Some xb -> b < RO_BASE -> eidx en <= commit xb ->
+                 nth_error (log xb) (N.to_nat (eidx en) - 1) = Some en.
+Proof. exact success_is_committed_core_partial. Qed.
+Print Assumptions C02_success_is_committed_core_partial.
